@@ -130,6 +130,19 @@ def c19_order(p1: int, p2: int, p3: int, w1: int, w2: int, n1: int, n2: int, au:
                     if y - x < warm[nm] - EPS:
                         rt.note('watcher %s: consecutive spawns %.4f s apart, warmup_delay %.2f', nm, y - x, warm[nm])
                         ok = False
+            if S.get('dmax', 0) > 0:
+                # the aftermath of the sequence belongs to it: a worker that died during the startup is replaced by the first
+                # periodic check after it -- still no sooner than warmup_delay after the watcher's previous spawn
+                w.run_for(1.3)
+                if w.clock.tripped:
+                    return rt.skip()
+                full = [s for s in k.spawn_log if s['t'] >= t_begin - EPS]
+                for nm in names:
+                    ts = [s['t'] for s in full if s['tag'] == nm]
+                    for x, y in zip(ts, ts[1:]):
+                        if y - x < warm[nm] - EPS:
+                            rt.note('watcher %s: a replacement was spawned %.4f s after the previous spawn, warmup_delay %.2f', nm, y - x, warm[nm])
+                            ok = False
             for a_, b_ in zip(order, order[1:]):
                 last_a = max(s['t'] for s in log if s['tag'] == a_)
                 first_b = min(s['t'] for s in log if s['tag'] == b_)
@@ -198,9 +211,11 @@ def plan(tier):
             sh.append({'trig': trig, 'gw': 0.3, 'full': True})
             sh.append({'trig': trig, 'gw': 0, 'full': True})
             sh.append({'trig': trig, 'gw': 0.3, 'dmax': 20})
+            sh.append({'trig': trig, 'gw': 0, 'dmax': 20})
     sh.append({'trig': 'boot', 'gw': 0, 'hookcost': 0.15, 'pace': True})
     if q:
         sh.append({'trig': 'boot', 'gw': 0.3, 'dmax': 12})
+        sh.append({'trig': 'start_all', 'gw': 0, 'dmax': 12})
     return [
         Cond('c19_order', shards=sh, budget=300 if q else 2400, twins=2,
              bounds={'p1,p2,p3': 'R: all integers (ties included)', 'w1,w2': 'S: warm-up %r' % (WARM,), 'n1': 'S[1,3]', 'n2': 'S[1,2]',
